@@ -17,7 +17,11 @@ fn usage() -> ! {
 
 fn main() {
     // keep panic output of the code under test out of the logs (panics are caught and judged)
-    std::panic::set_hook(Box::new(|_| {}));
+    std::panic::set_hook(Box::new(|info| {
+        if !cases::IN_GUARD.with(|g| g.get()) {
+            eprintln!("machinery error: harness panic: {}", info);
+        }
+    }));
     let args: Vec<String> = std::env::args().collect();
     if args.len() < 2 {
         usage();
